@@ -11,19 +11,49 @@ VARIANTS = {"core": ("FALSE", "FALSE", "FALSE"), "extras": ("FALSE", "TRUE", "FA
             "all": ("TRUE", "TRUE", "FALSE"), "xfer": ("FALSE", "FALSE", "TRUE"), "xfer_extras": ("FALSE", "TRUE", "TRUE")}
 
 
-def mkcfg(universe, variant, depth, emitidx=True, episodes=False):
+def mkcfg(universe, variant, depth, emitidx=True, episodes=False, walks=False):
     os.makedirs(GEN, exist_ok=True)
     faults, extras, transfers = VARIANTS[variant]
     txt = open(os.path.join(SPEC, "Manager.cfg.tmpl")).read()
     txt = (txt.replace("@FAULTS@", faults).replace("@EXTRAS@", extras).replace("@TRANSFERS@", transfers).replace("@DEPTH@", str(depth))
-           .replace("@EMITIDX@", "TRUE" if emitidx else "FALSE").replace("@EPISODES@", "TRUE" if episodes else "FALSE"))
-    p = os.path.join(GEN, f"MC_{universe}_{variant}_{depth}_{int(emitidx)}{int(episodes)}.cfg")
+           .replace("@EMITIDX@", "TRUE" if emitidx else "FALSE").replace("@EPISODES@", "TRUE" if episodes else "FALSE")
+           .replace("@EMIT@", "" if walks else "ACTION_CONSTRAINT Emit"))
+    p = os.path.join(GEN, f"MC_{universe}_{variant}_{depth}_{int(emitidx)}{int(episodes)}{int(bool(walks))}.cfg")
     with open(p, "w") as f:
         f.write(txt)
     return p
 
 
-def explore(universe, variant, depth, simulate=None, workers=2, emitidx=True, sd=0, episodes=False):
+def explore_walks(universe, variant, depth, walks, sd, emitidx, procs=10):
+    """`walks` simulated behaviours of `depth` steps (TLC -simulate file=...: one file per behaviour holding only the states the walk visits,
+    each with the label `last` of the step that led to it), from `procs` TLC processes with different seeds"""
+    import shutil, tempfile
+    cfg = mkcfg(universe, variant, depth, emitidx, False, walks=True)
+    d = tempfile.mkdtemp(prefix="xdv-walks-")
+    per = -(-walks // procs)
+    try:
+        def one(k):
+            return tlc.run(f"MC_{universe}.tla", cfg, workers=1, simulate=per, depth=depth + 1, seed=sd * 1000 + k, timeout=3000,
+                           simulate_file=os.path.join(d, f"w{k}"), heap="2g")
+        with cf.ThreadPoolExecutor(max_workers=procs) as ex:
+            rs = list(ex.map(one, range(procs)))
+        for r in rs:
+            if r.violation:
+                raise Machinery(f"TLC reports a violation on the model itself ({universe}/{variant}/{depth} walks):\n{r.violation[:3000]}")
+        g = mr.parse_walk_files(d, rs[0].out)
+    finally:
+        shutil.rmtree(d, ignore_errors=True)
+    r = rs[0]
+    r.states = sum(x.states for x in rs)
+    r.distinct = len(g.states)
+    r.wall = max(x.wall for x in rs)
+    return g, r
+
+
+def explore(universe, variant, depth, simulate=None, workers=2, emitidx=True, sd=0, episodes=False, walks=0):
+    """walks=N: TLC -simulate with N behaviours of `depth` steps, emitted as walks (one line per visited state) and replayed along themselves"""
+    if walks:
+        return explore_walks(universe, variant, depth, walks, sd, emitidx)
     cfg = mkcfg(universe, variant, depth, emitidx, episodes)
     out = os.path.join(GEN, f"MC_{universe}_{variant}_{depth}_{'sim%d' % simulate if simulate else 'bfs'}_{os.getpid()}.out")
     try:
@@ -55,7 +85,7 @@ def run(prop, level, rule, plans, tags=None, keys=("plain",), modes=("compiled",
     def submit(i):
         p = plans[i]
         futs[i] = ex.submit(explore, p["universe"], p["variant"], p["depth"], p.get("simulate"), 6, p.get("emitidx", True),
-                            seed() + i, bool(p.get("episodes", episodes)))
+                            seed() + i, bool(p.get("episodes", episodes)), p.get("walks", 0))
 
     def graphs_iter():
         for k in range(min(2, len(order))):
@@ -76,7 +106,8 @@ def run(prop, level, rule, plans, tags=None, keys=("plain",), modes=("compiled",
             for mode in modes:
                 fails, st, samples = mr.run_replay(g, plan["universe"], kk, scratch[mode], mode, list(hashseeds), nshards, queries=queries,
                                                    fan_keep=plan.get("fan_keep", 1.0), seed=seed(),
-                                                   episodes=plan.get("episodes", episodes), digest=dig, loops=loops, nloops=plan.get("nloops", nloops))
+                                                   episodes=plan.get("episodes", episodes), digest=dig, loops=loops, nloops=plan.get("nloops", nloops),
+                                                   allpaths=plan.get("allpaths", 0), allpaths_cap=plan.get("allpaths_cap", 60))
                 stats.update(st)
                 for s in samples[:1]:
                     v.sample({"universe": plan["universe"], "variant": plan["variant"], **s})
